@@ -22,13 +22,18 @@ TRUSTED = ['time.sleep sleeps at least its argument, perf_counter is monotone (e
            'client stream: the whole of _entrez.py:26-77 incl. path/ext defaults, os.path.join file names, per-call limit choice, failing requests (run_C19_client); '
            'sugar.read is an oracle (texts are compared, parsed records are checked against read(payload) and hand-written expectations)']
 ASSUMPTIONS = ['single-threaded client', 'integer-tick virtual clock']
-LEVEL_TEXT = ('Coq theorems for every call history with arbitrary non-negative arrival gaps, sleep overshoots and request durations: the request '
-              'N places earlier started at least one window before, hence at most N starts in any half-open one-second window (N, window from '
-              'regenerated constants); sleep only when N requests are on record and the oldest is younger than the window; cache: request iff no '
-              'path/no file/empty file/overwrite, and in any history - the server free to answer differently at every call - no second request for a cached non-empty (path,id,ext) unless overwrite is set or an answer for that file was empty. The state machine '
-              'is tied to the real class by differential runs under a virtual clock and stub HTTP layer.')
+LEVEL_TEXT = ('Coq theorems for every call history with arbitrary non-negative arrival gaps, sleep overshoots and request durations (failed requests count as '
+              'starts): the request N places earlier started at least one window before, hence at most N starts in ANY half-open one-second window [x, x+W) (N, window from '
+              'regenerated constants); the limit is chosen per call: for ANY history of key switches never more than 10 starts in any window (window_limit_any_key, invariant: every '
+              'start no longer in the deque is at least W old), a key added later keeps 3 before / 10 after (key_added_later), a key REMOVED lets 10 keyless requests start in one '
+              'window (key_removed_refuted, pending fix keyswitch); sleep iff popleft branch and popped stamp younger than W (wait_sleeps_iff), and in reachable states iff N requests '
+              'started within the last second (sleep_iff_window_full); cache: request iff no '
+              'path/no file/empty file/overwrite, and in any history - the server free to answer differently at every call - no second request for a cached non-empty (path,id,ext) unless overwrite is set or an answer for that file was empty. The state machines '
+              '(rate, cache, and the whole client run_C19_client) are tied to the real class by differential runs under a virtual clock and stub HTTP layer.')
 LEVEL_NOTE = ('Trusted: Coq kernel/vm_compute, tools/gens/entrez.py, the harness (virtual clock, stub requests module), CPython deque/float/os. '
-              'Model assumptions: sleep overshoot/gaps/durations >= 0, zero delay between recording and sending a request, single thread. No axioms.')
+              'Model assumptions: sleep overshoot/gaps/durations >= 0, zero delay between recording and sending a request, single thread, file names are normalised strings '
+              '(ids/extensions without slash), case-sensitive file system. The whole-client model (key switches, failures, file names, path/ext defaults) is so far tied by the '
+              'correspondence only; its theorems are the rate theorems over run2. No axioms.')
 TECHNIQUE = 'Coq invariant proof over a state machine with adversarial environment + differential correspondence under a virtual clock'
 
 VALS = [0, 0, 0, 1, 255, 256, 512, 1023, 1024, 1025, 2048, 300]
